@@ -348,11 +348,18 @@ func genProtoValue(r *Rng, max int) []byte {
 	}
 	b := make([]byte, n)
 	alphabet := []byte("abc \r\n\x00\xffEND\r\nSTORED get set 0123")
-	if r.Bool(1, 3) {
+	switch r.Intn(3) {
+	case 0:
 		for i := range b {
 			b[i] = byte(r.U64())
 		}
-	} else {
+	case 1:
+		// highly compressible: the server compresses records above 256 bytes
+		phrase := []string{"a", "ab", "hello world ", "0123456789"}[r.Intn(4)]
+		for i := range b {
+			b[i] = phrase[i%len(phrase)]
+		}
+	default:
 		for i := range b {
 			b[i] = alphabet[r.Intn(len(alphabet))]
 		}
